@@ -159,6 +159,11 @@ package actionlint
 //@   at_call [C06] (*ExprSemanticsChecker).errorf: !istype(ty, "AnyType")
 //@ func (*ExprSemanticsChecker).checkArrayDeref
 //@   at_call [C06] (*ExprSemanticsChecker).errorf: !istype(ty, "AnyType")
+// `.*` on an object with known members is only rejected when no member can be an object: a member typed
+// `any` may be one
+//@   at_call [C06] (*ExprSemanticsChecker).errorf: istype(ty, "*ObjectType") && dyn(ty, "*ObjectType").Mapped == nil ==> (forall k: string :: dyn(ty, "*ObjectType").Props.has(k) ==> !istype(dyn(ty, "*ObjectType").Props[k], "AnyType"))
+//@   loop "range ty.Props":
+//@     invariant [C06] !found ==> (forall k: string :: visited(k) ==> !istype(dyn(ty, "*ObjectType").Props[k], "AnyType"))
 //@ func (*ExprSemanticsChecker).checkIndexAccess
 //@   at_call [C06] (*ExprSemanticsChecker).errorf: !istype(ty, "AnyType") && ((istype(ty, "*ArrayType") || istype(ty, "*ObjectType")) ==> !istype(idx, "AnyType"))
 //@ func (*ExprSemanticsChecker).checkNotOp
